@@ -2,4 +2,4 @@ from props.common import run_bounded
 
 
 def run(report):
-    run_bounded(report, 'tok')
+    run_bounded(report, ['tok', 'fstr'])
